@@ -8,6 +8,10 @@ Parses the sources with `ast` (never imports them) and renders
    `NixModel/Pure/DimLinkPrim.lean` (`LStmt`): which checks there are, in which order, and where the writes
    (old link removed, link group created, ticks dropped / written) stand relative to them;
  * that both `SampledDimension.link_data_*` do nothing but raise;
+ * the statements of the DataFrame branch of the `DimensionLink.unit` getter and setter (`UStmt`): the frame's
+   `units` is read, a frame without units answers None / gets one empty entry per column, an empty entry reads
+   None, None is written as the empty text (the `fix:` commit "unit of a dimension linked to a frame column"); the
+   DataArray branch reads / writes the array's `unit` attribute as it is;
  * how `DimensionLink.create_new` names the hard link (`create_link(dataobj, dataobj.id)`) and how
    `_linked_group` finds the target again (`get_by_pos(0)`);
  * the membership tests in front of every link assignment (`LinkContainer._accept`, `MultiTag.positions`,
@@ -152,6 +156,63 @@ def _link_body(fn, where):
     return "[" + ", ".join(out) + "]"
 
 
+def _prop(cls, name, rel, setter=False):
+    want = ["%s.setter" % name] if setter else ["property"]
+    for n in cls.body:
+        if isinstance(n, ast.FunctionDef) and n.name == name and [ast.unparse(d) for d in n.decorator_list] == want:
+            return n
+    raise ExtractError("%s: %s.%s (%s) not found" % (rel, cls.name, name, "setter" if setter else "getter"))
+
+
+def _unit_branches(fn, where, setter):
+    """`DimensionLink.unit`: `lobj = self._linked_group()`, then the chain over `self._data_object_type`
+    ("DataArray" / "DataFrame" / else raise RuntimeError); returns the statements of the DataFrame branch as UStmt terms
+    after checking that the DataArray branch is the raw attribute access"""
+    sts = _stmts(fn)
+    if len(sts) < 2 or _u(sts[0]) != "lobj = self._linked_group()":
+        raise ExtractError("%s: expected `lobj = self._linked_group()` first" % where)
+    chain = sts[1]
+    if not (isinstance(chain, ast.If) and _u(chain.test) == "self._data_object_type == 'DataArray'"
+            and len(chain.orelse) == 1 and isinstance(chain.orelse[0], ast.If)
+            and _u(chain.orelse[0].test) == "self._data_object_type == 'DataFrame'"):
+        raise _bad(where, chain)
+    frame = chain.orelse[0]
+    if not (len(frame.orelse) == 1 and isinstance(frame.orelse[0], ast.Raise)
+            and isinstance(frame.orelse[0].exc, ast.Call) and _u(frame.orelse[0].exc.func) == "RuntimeError"):
+        raise ExtractError("%s: the chain over _data_object_type must end in `raise RuntimeError`" % where)
+    raw = "lobj.set_attr('unit', unit)" if setter else "return lobj.get_attr('unit')"
+    if [_u(x) for x in chain.body] != [raw]:
+        raise ExtractError("%s: the DataArray branch is not `%s`" % (where, raw))
+    for st in sts[2:]:
+        # (what follows the chain in the setter is the time stamp of the linked object: C19's statement)
+        if not (setter and isinstance(st, ast.If) and "auto_update_timestamps" in _u(st.test)):
+            raise _bad(where, st)
+    out = []
+    for st in frame.body:
+        src = _u(st)
+        if src == "units = lobj.get_attr('units')":
+            out.append(".readUnits")
+        elif isinstance(st, ast.If) and not st.orelse and _u(st.test) == "units is None" and len(st.body) == 1 \
+                and _u(st.body[0]) == "return None" and not setter:
+            out.append(".noneIfNoUnits")
+        elif src == "unit = units[self.index]" and not setter:
+            out.append(".pickEntry")
+        elif src == "return unit if unit != '' else None" and not setter:
+            out.append(".returnEmptyAsNone")
+        elif isinstance(st, ast.If) and not st.orelse and _u(st.test) == "units is None" and len(st.body) == 1 \
+                and _u(st.body[0]) == "units = [''] * len(lobj.group['data'].dtype.names)" and setter:
+            out.append(".emptyPerColumnIfNoUnits")
+        elif src == "units = list(units)" and setter:
+            out.append(".copyList")
+        elif src == "units[self.index] = unit if unit is not None else ''" and setter:
+            out.append(".putEntryNoneAsEmpty")
+        elif src == "lobj.set_attr('units', units)" and setter:
+            out.append(".writeUnits")
+        else:
+            raise _bad(where, st)
+    return "[" + ", ".join(out) + "]"
+
+
 def _only_raises(fn):
     sts = _stmts(fn)
     return len(sts) == 1 and isinstance(sts[0], ast.Raise) and isinstance(sts[0].exc, ast.Call) \
@@ -220,6 +281,10 @@ def extract(repo):
     lg = _stmts(_func(dl, "_linked_group", DIMS))
     by_pos0 = len(lg) == 1 and _u(lg[0]) == "return self._h5group.get_by_pos(0)"
 
+    # the unit of a link: the DataFrame branch of getter and setter, statement by statement
+    unit_get = _unit_branches(_prop(dl, "unit", DIMS), "DimensionLink.unit (getter)", False)
+    unit_set = _unit_branches(_prop(dl, "unit", DIMS, setter=True), "DimensionLink.unit (setter)", True)
+
     # membership tests in front of link assignments
     ctree = _parse(repo, os.path.join("nixio", "container.py"))
     lc = _class(ctree, "LinkContainer", "container.py")
@@ -255,6 +320,14 @@ def extract(repo):
         L.append("/-- statements of `%s` -/" % what)
         L.append("def %s : List LStmt := %s" % (name, body))
         L.append("")
+    L.append("/-- statements of the DataFrame branch of the `DimensionLink.unit` getter (the DataArray branch is "
+             "`return lobj.get_attr(\"unit\")`) -/")
+    L.append("def frameUnitGetterBody : List UStmt := %s" % unit_get)
+    L.append("")
+    L.append("/-- statements of the DataFrame branch of the `DimensionLink.unit` setter (the DataArray branch is "
+             "`lobj.set_attr(\"unit\", unit)`) -/")
+    L.append("def frameUnitSetterBody : List UStmt := %s" % unit_set)
+    L.append("")
     L.append("/-- both `SampledDimension.link_data_array` and `.link_data_frame` consist of `raise RuntimeError(...)` -/")
     L.append("def sampledRefuses : Bool := %s" % lean_bool(sampled))
     L.append("/-- `DimensionLink.create_new` links the data object itself under the name `<object>.id` -/")
